@@ -670,6 +670,21 @@ func (e *Engine) typeSwitchStmt(s *ast.TypeSwitchStmt, in []*State) []*State {
 		if v := clauseVar(e.Info, cc); v != nil {
 			bodyIn = e.hookEach(bodyIn, func(st *State) *State {
 				st = st.killObj(v)
+				if tk := e.canon(st, tsi.Tag); tk.OK && e.tracked(tk) {
+					self := false
+					for _, o := range tk.Objs {
+						if o == types.Object(v) {
+							self = true
+						}
+					}
+					if !self {
+						ak := keyInfo{Key: "val:" + e.objKey(v), Objs: append([]types.Object{v}, tk.Objs...), Fields: tk.Fields, Heap: tk.Heap, OK: true}
+						t := tk
+						if n := e.update(st, ak, func(f *Fact) { f.Alias = &t }); n != nil {
+							return n
+						}
+					}
+				}
 				ts := tsi.Types[cc]
 				if cc.List != nil {
 					st2 := e.assumeTypeKey(st, keyInfo{Key: e.objKey(v), Objs: []types.Object{v}, OK: true}, ts, true)
@@ -1136,14 +1151,67 @@ func (e *Engine) valueOf(st *State, x ast.Expr) *Fact {
 			return &Fact{Nil: 2, Tags: []string{"fresh:new"}}
 		}
 	}
-	if k := e.Canon(x); k.OK {
+	if k := e.canon(st, x); k.OK {
 		if f := st.facts[k.Key]; f != nil {
 			g := f.clone()
-			g.ObjDeps, g.FieldDeps, g.Heap = nil, nil, false
+			g.ObjDeps, g.FieldDeps, g.Heap, g.Alias = nil, nil, false, nil
 			return g
 		}
 	}
 	return nil
+}
+
+// aliasTarget returns the path a variable assigned from r will denote, if r is a stable path expression.
+func (e *Engine) aliasTarget(st *State, r ast.Expr) *keyInfo {
+	r = ast.Unparen(r)
+	switch x := r.(type) {
+	case *ast.Ident, *ast.SelectorExpr, *ast.IndexExpr, *ast.StarExpr:
+	case *ast.TypeAssertExpr:
+		if x.Type == nil {
+			return nil
+		}
+	case *ast.CallExpr:
+		if !IsBuiltinCall(e.Info, x, "len") && !IsBuiltinCall(e.Info, x, "cap") {
+			return nil
+		}
+	default:
+		return nil
+	}
+	if tv, ok := e.Info.Types[r]; ok && tv.Value != nil {
+		return nil
+	}
+	if isNilIdent(e.Info, r) {
+		return nil
+	}
+	k := e.canon(st, r)
+	if !k.OK || !e.tracked(k) {
+		return nil
+	}
+	return &k
+}
+
+// setAlias records that variable l denotes target (after l's old facts were killed).
+func (e *Engine) setAlias(st *State, l ast.Expr, target *keyInfo) *State {
+	id, ok := ast.Unparen(l).(*ast.Ident)
+	if !ok || id.Name == "_" || target == nil {
+		return st
+	}
+	obj := objOf(e.Info, id)
+	v, isVar := obj.(*types.Var)
+	if !isVar || e.noFacts[obj] || (v.Pkg() != nil && v.Parent() == v.Pkg().Scope()) {
+		return st
+	}
+	for _, o := range target.Objs {
+		if o == obj {
+			return st // self-reference: x = x.f
+		}
+	}
+	ak := keyInfo{Key: "val:" + e.objKey(obj), Objs: append([]types.Object{obj}, target.Objs...), Fields: target.Fields, Heap: target.Heap, OK: true}
+	t := *target
+	if n := e.update(st, ak, func(f *Fact) { f.Alias = &t }); n != nil {
+		return n
+	}
+	return st
 }
 
 func (e *Engine) assign(lhs, rhs []ast.Expr, tok token.Token, stmt ast.Stmt, in []*State) []*State {
@@ -1166,17 +1234,31 @@ func (e *Engine) assign(lhs, rhs []ast.Expr, tok token.Token, stmt ast.Stmt, in 
 		}
 		// len(x) after x = append(x, ...) grows; after x = x[:len(x)-1] shrinks: handled by kill (len key depends on x).
 		var lenAfter []*int64
+		var aliases []*keyInfo
 		if simple && len(lhs) == len(rhs) {
 			for i, r := range rhs {
 				lenAfter = append(lenAfter, e.lenLowerBound(st, lhs[i], r))
+				aliases = append(aliases, e.aliasTarget(st, r))
+			}
+		}
+		var okAlias *keyInfo
+		if simple && len(lhs) == 2 && len(rhs) == 1 {
+			if ta, ok := ast.Unparen(rhs[0]).(*ast.TypeAssertExpr); ok {
+				okAlias = e.aliasTarget(st, ta)
 			}
 		}
 		for _, l := range lhs {
 			st = e.killTarget(st, l)
 		}
+		if okAlias != nil {
+			st = e.setAlias(st, lhs[0], okAlias)
+		}
 		if simple && len(lhs) == len(rhs) {
 			for i, l := range lhs {
-				k := e.Canon(l)
+				if aliases[i] != nil {
+					st = e.setAlias(st, l, aliases[i])
+				}
+				k := e.canon(st, l)
 				if !k.OK {
 					continue
 				}
@@ -1215,7 +1297,7 @@ func (e *Engine) lenLowerBound(st *State, l, r ast.Expr) *int64 {
 	r = ast.Unparen(r)
 	if call, ok := r.(*ast.CallExpr); ok && IsBuiltinCall(e.Info, call, "append") && len(call.Args) >= 1 && !call.Ellipsis.IsValid() {
 		n := int64(len(call.Args) - 1)
-		if k := e.Canon(call.Args[0]); k.OK {
+		if k := e.canon(st, call.Args[0]); k.OK {
 			if f := st.facts["len("+k.Key+")"]; f != nil && f.Lo != nil {
 				n += *f.Lo
 			}
@@ -1238,7 +1320,7 @@ func (e *Engine) lenLowerBound(st *State, l, r ast.Expr) *int64 {
 
 // commaOK records the meaning of `v, ok := x.(T)`, `v, ok := m[k]`.
 func (e *Engine) commaOK(st *State, lhs []ast.Expr, r ast.Expr) *State {
-	okK := e.Canon(lhs[1])
+	okK := e.canon(st, lhs[1])
 	if !okK.OK || !e.tracked(okK) {
 		return st
 	}
@@ -1247,19 +1329,19 @@ func (e *Engine) commaOK(st *State, lhs []ast.Expr, r ast.Expr) *State {
 	var dep keyInfo
 	switch x := r.(type) {
 	case *ast.TypeAssertExpr:
-		dep = e.Canon(x.X)
+		dep = e.canon(st, x.X)
 		if !dep.OK || x.Type == nil {
 			return st
 		}
 		tag = "assert|" + dep.Key + "|" + TypeStr(e.Info.TypeOf(x.Type))
-		if vk := e.Canon(lhs[0]); vk.OK {
+		if vk := e.canon(st, lhs[0]); vk.OK {
 			tag += "|" + vk.Key
 		}
 	case *ast.IndexExpr:
 		if _, isMap := e.Info.TypeOf(x.X).Underlying().(*types.Map); !isMap {
 			return st
 		}
-		m, k := e.Canon(x.X), e.Canon(x.Index)
+		m, k := e.canon(st, x.X), e.canon(st, x.Index)
 		if !m.OK || !k.OK {
 			return st
 		}
@@ -1329,7 +1411,7 @@ func (e *Engine) assumeAtom(st *State, x ast.Expr, val bool) *State {
 			return e.assumeCompare(st, b.X, b.Op, b.Y, val)
 		}
 	}
-	k := e.Canon(x)
+	k := e.canon(st, x)
 	if !k.OK {
 		return st
 	}
@@ -1425,7 +1507,7 @@ func (e *Engine) assumeCompare(st *State, x ast.Expr, op token.Token, y ast.Expr
 		x, y, cx, cy = y, x, cy, cx
 		op = flipOp(op)
 	}
-	kx := e.Canon(x)
+	kx := e.canon(st, x)
 	if !kx.OK {
 		return st
 	}
@@ -1494,7 +1576,7 @@ func (e *Engine) assumeCompare(st *State, x ast.Expr, op token.Token, y ast.Expr
 		}
 		return st
 	}
-	ky := e.Canon(y)
+	ky := e.canon(st, y)
 	if !ky.OK {
 		return st
 	}
@@ -1578,7 +1660,7 @@ func typeStrs(ts []types.Type) (out []string, hasNil bool) {
 }
 
 func (e *Engine) assumeType(st *State, tag ast.Expr, ts []types.Type, in bool) *State {
-	k := e.Canon(tag)
+	k := e.canon(st, tag)
 	if !k.OK {
 		return st
 	}
@@ -1671,7 +1753,7 @@ func (e *Engine) assumeAtomDeep(st *State, x ast.Expr, val bool) *State {
 
 // NonNil reports whether x is known non-nil.
 func (e *Engine) NonNil(st *State, x ast.Expr) bool {
-	k := e.Canon(x)
+	k := e.canon(st, x)
 	if !k.OK {
 		return false
 	}
@@ -1681,7 +1763,7 @@ func (e *Engine) NonNil(st *State, x ast.Expr) bool {
 
 // IsNil reports whether x is known nil.
 func (e *Engine) IsNil(st *State, x ast.Expr) bool {
-	k := e.Canon(x)
+	k := e.canon(st, x)
 	if !k.OK {
 		return false
 	}
@@ -1691,7 +1773,7 @@ func (e *Engine) IsNil(st *State, x ast.Expr) bool {
 
 // LenAtLeast reports whether len(x) >= n is known.
 func (e *Engine) LenAtLeast(st *State, x ast.Expr, n int64) bool {
-	k := e.Canon(x)
+	k := e.canon(st, x)
 	if !k.OK {
 		return false
 	}
@@ -1701,7 +1783,7 @@ func (e *Engine) LenAtLeast(st *State, x ast.Expr, n int64) bool {
 
 // FactOf returns the fact about x, or nil.
 func (e *Engine) FactOf(st *State, x ast.Expr) *Fact {
-	k := e.Canon(x)
+	k := e.canon(st, x)
 	if !k.OK {
 		return nil
 	}
@@ -1710,7 +1792,7 @@ func (e *Engine) FactOf(st *State, x ast.Expr) *Fact {
 
 // SetTag adds a client tag to the fact of x.
 func (e *Engine) SetTag(st *State, x ast.Expr, tag string) *State {
-	k := e.Canon(x)
+	k := e.canon(st, x)
 	if !k.OK {
 		return st
 	}
@@ -1722,7 +1804,7 @@ func (e *Engine) SetTag(st *State, x ast.Expr, tag string) *State {
 
 // SetNonNil marks x as non-nil.
 func (e *Engine) SetNonNil(st *State, x ast.Expr) *State {
-	k := e.Canon(x)
+	k := e.canon(st, x)
 	if !k.OK {
 		return st
 	}
